@@ -135,6 +135,10 @@ pub fn adapt(c: &mut Case) {
     if c.radix_mode & 2 == 0 {
         c.rb = c.kb;
     }
+    if c.be.is_fft() && c.ab != c.kb && c.kb >= maxb && c.kb > 2 {
+        // nearly-balanced digits after the cross-radix conversion: one bit of head-room
+        c.kb -= 1;
+    }
     c.rsize = c.rsize.clamp(1, 12);
     c.krem = if c.extra == 0 { 0 } else { c.krem % c.kb };
     c.cls = match c.cls {
@@ -452,11 +456,12 @@ fn run_trace<B: FullBackend>(m: &Module<B>, c: &Case) -> Verdict {
     let wbits = if assign { al.bits() } else { al.bits().max(rl.bits()) };
     let wl = if assign && al.b == kb { al } else { Lay { b: kb, size: wbits.div_ceil(kb) } };
     let so = 1.0 + l1_sum(&s) as f64;
+    let scale = if al.b != kb || rl.b != kb { 2.0 } else { 1.0 };
     let mut bound = 0f64;
     for i in skip..log_n {
         let me = &metas[&gals[i]];
         bound += wl.unit() * so; // rsh(1) rounding
-        bound += ks_bound(me, wl, wl, n, &l1s(&s), l1_sum(&s));
+        bound += ks_bound_scaled(me, wl, wl, n, &l1s(&s), l1_sum(&s), scale);
     }
     bound += (wl.unit() + rl.unit()) * so * 2.0; // conversions into and out of the working layout
     let (e, i) = max_err(&got, &want);
@@ -795,10 +800,11 @@ fn trace_bound(c: &Case, metas: &HashMap<i64, KeyMeta>, gals: &[i64], al: Lay, r
     let wbits = if assign { al.bits() } else { al.bits().max(rl.bits()) };
     let wl = if assign && al.b == kb { al } else { Lay { b: kb, size: wbits.div_ceil(kb) } };
     let so = 1.0 + l1_sum(s) as f64;
+    let scale = if al.b != kb || rl.b != kb { 2.0 } else { 1.0 };
     let mut bound = 0f64;
     for i in skip..c.log_n as usize {
         bound += wl.unit() * so;
-        bound += ks_bound(&metas[&gals[i]], wl, wl, n, &l1s(s), l1_sum(s));
+        bound += ks_bound_scaled(&metas[&gals[i]], wl, wl, n, &l1s(s), l1_sum(s), scale);
     }
     bound + (wl.unit() + rl.unit()) * so * 2.0
 }
